@@ -105,6 +105,8 @@ def run(cmd, cwd=None, timeout=None):
 def regenerate_tables():
     from harness import gen_tables
 
+    run([sys.executable, str(VERIF / "tools" / "regen_roots.py")])  # deterministic from directory contents
+
     return gen_tables.main()
 
 
